@@ -443,7 +443,7 @@ Qed.
 Definition lbound (C : Z) (l : line) : Prop := pbound C (l_start l) /\ pbound C (l_end l).
 Lemma ds_lbound l : ds_line l -> lbound 1024 l.
 Proof. unf_ds. unfold lbound, pbound. tauto. Qed.
-Lemma edge_lbound l : edge_line l -> lbound 1280 l.
+Lemma edge_lbound l : edge_line l -> lbound 1800 l.
 Proof. unf_ds. unfold lbound, pbound. tauto. Qed.
 
 Lemma line_delta_total C l : 0 <= C <= 1073741823 -> lbound C l -> line_delta_ok l = true /\ pbound (2 * C) (line_delta l).
@@ -585,7 +585,13 @@ Proof.
   destruct (perpendicular_total 1024 l ltac:(lia) Hb) as [-> Hperp].
   destruct (bparams_new_total 3072 _ ltac:(lia) Hperp) as [-> Hbpp].
   destruct (line_delta_total 1024 l ltac:(lia) Hb) as [-> Hd].
-  rewrite (length_squared_total 2048) by (assumption || lia).
+  pose proof (length_squared_bound 2048 _ ltac:(lia) Hd) as Hls.
+  assert (Hq : i64 (px (line_delta l) * px (line_delta l)) = true /\ i64 (py (line_delta l) * py (line_delta l)) = true /\
+               i64 (length_squared (line_delta l)) = true).
+  { destruct Hd as [? ?].
+    pose proof (mul_bound (px (line_delta l)) (px (line_delta l)) 2048 2048).
+    pose proof (mul_bound (py (line_delta l)) (py (line_delta l)) 2048 2048). repeat split; rng. }
+  destruct Hq as [-> [-> ->]].
   pose proof (mul_bound_nn (t * 2) (t * 2) 256 256).
   destruct (next_all_total 6144 1024 (bparams_new (perpendicular l)) (BS (l_start l0) 0)) as [-> _];
     try lia; try assumption.
@@ -626,59 +632,59 @@ Proof. intros. unfold thick_points_next_ok. rng. Qed.
 (* =========================================================================================== *)
 (* LinearEquation, IntersectionParams, miter (on the edge lines of a display-scale thick segment) *)
 (* =========================================================================================== *)
-Lemma le_normal_bound l : lbound 1280 l -> pbound 2560 (le_normal l).
+Lemma le_normal_bound l : lbound 1800 l -> pbound 3600 (le_normal l).
 Proof.
-  intros Hl. destruct (line_delta_total 1280 l ltac:(lia) Hl) as [_ [? ?]].
+  intros Hl. destruct (line_delta_total 1800 l ltac:(lia) Hl) as [_ [? ?]].
   unfold le_normal, rotate_90, pbound. cbn [px py]. lia.
 Qed.
-Lemma le_distance_bound l : lbound 1280 l -> - 6553600 <= le_distance l <= 6553600.
+Lemma le_distance_bound l : lbound 1800 l -> - 12960000 <= le_distance l <= 12960000.
 Proof.
   intros Hl. pose proof (le_normal_bound l Hl) as [? ?]. destruct Hl as [[? ?] _].
   unfold le_distance, dot_product.
-  pose proof (mul_bound (px (l_start l)) (px (le_normal l)) 1280 2560).
-  pose proof (mul_bound (py (l_start l)) (py (le_normal l)) 1280 2560). lia.
+  pose proof (mul_bound (px (l_start l)) (px (le_normal l)) 1800 3600).
+  pose proof (mul_bound (py (l_start l)) (py (le_normal l)) 1800 3600). lia.
 Qed.
 Lemma from_line_total l : edge_line l -> from_line_ok l = true.
 Proof.
   intros He. pose proof (edge_lbound l He) as Hl. unfold from_line_ok.
-  destruct (line_delta_total 1280 l ltac:(lia) Hl) as [-> Hd].
-  rewrite (rotate_90_total 2560) by (assumption || lia).
-  rewrite (dot_product_total 1280 2560) by (try lia; try apply Hl; apply le_normal_bound; assumption).
+  destruct (line_delta_total 1800 l ltac:(lia) Hl) as [-> Hd].
+  rewrite (rotate_90_total 3600) by (assumption || lia).
+  rewrite (dot_product_total 1800 3600) by (try lia; try apply Hl; apply le_normal_bound; assumption).
   reflexivity.
 Qed.
 Lemma le_point_distance_total l p : edge_line l -> edge_point p -> le_point_distance_ok l p = true.
 Proof.
   intros He Hp. pose proof (edge_lbound l He) as Hl. unfold le_point_distance_ok.
-  assert (Hp' : pbound 1280 p) by (revert Hp; unf_ds; unfold pbound; tauto).
-  rewrite (dot_product_total 1280 2560) by (try lia; try assumption; apply le_normal_bound; assumption).
+  assert (Hp' : pbound 1800 p) by (revert Hp; unf_ds; unfold pbound; tauto).
+  rewrite (dot_product_total 1800 3600) by (try lia; try assumption; apply le_normal_bound; assumption).
   pose proof (le_distance_bound l Hl). pose proof (le_normal_bound l Hl) as [? ?]. destruct Hp' as [? ?].
   unfold dot_product.
-  pose proof (mul_bound (px p) (px (le_normal l)) 1280 2560).
-  pose proof (mul_bound (py p) (py (le_normal l)) 1280 2560). cbn [andb]. rng.
+  pose proof (mul_bound (px p) (px (le_normal l)) 1800 3600).
+  pose proof (mul_bound (py p) (py (le_normal l)) 1800 3600). cbn [andb]. rng.
 Qed.
-Lemma ip_denominator_bound l1 l2 : lbound 1280 l1 -> lbound 1280 l2 -> - 13107200 <= ip_denominator l1 l2 <= 13107200.
+Lemma ip_denominator_bound l1 l2 : lbound 1800 l1 -> lbound 1800 l2 -> - 25920000 <= ip_denominator l1 l2 <= 25920000.
 Proof.
   intros H1 H2. pose proof (le_normal_bound l1 H1) as [? ?]. pose proof (le_normal_bound l2 H2) as [? ?].
   unfold ip_denominator, determinant.
-  pose proof (mul_bound (px (le_normal l1)) (py (le_normal l2)) 2560 2560).
-  pose proof (mul_bound (py (le_normal l1)) (px (le_normal l2)) 2560 2560). lia.
+  pose proof (mul_bound (px (le_normal l1)) (py (le_normal l2)) 3600 3600).
+  pose proof (mul_bound (py (le_normal l1)) (px (le_normal l2)) 3600 3600). lia.
 Qed.
 Lemma from_lines_total l1 l2 : edge_line l1 -> edge_line l2 -> from_lines_ok l1 l2 = true.
 Proof.
   intros H1 H2. unfold from_lines_ok. rewrite (from_line_total l1 H1), (from_line_total l2 H2).
-  rewrite (determinant_total 2560 2560) by (try lia; apply le_normal_bound, edge_lbound; assumption). reflexivity.
+  rewrite (determinant_total 3600 3600) by (try lia; apply le_normal_bound, edge_lbound; assumption). reflexivity.
 Qed.
 Lemma nearly_colinear_total l1 l2 : edge_line l1 -> edge_line l2 -> nearly_colinear_ok l1 l2 = true.
 Proof.
   intros H1 H2. pose proof (edge_lbound l1 H1) as B1. pose proof (edge_lbound l2 H2) as B2.
   unfold nearly_colinear_ok.
-  destruct (line_delta_total 1280 l1 ltac:(lia) B1) as [-> D1]. destruct (line_delta_total 1280 l2 ltac:(lia) B2) as [-> D2].
-  rewrite (dot_product_total 2560 2560) by (assumption || lia).
+  destruct (line_delta_total 1800 l1 ltac:(lia) B1) as [-> D1]. destruct (line_delta_total 1800 l2 ltac:(lia) B2) as [-> D2].
+  rewrite (dot_product_total 3600 3600) by (assumption || lia).
   pose proof (ip_denominator_bound l1 l2 B1 B2).
-  pose proof (mul_bound (ip_denominator l1 l2) (ip_denominator l1 l2) 13107200 13107200).
+  pose proof (mul_bound (ip_denominator l1 l2) (ip_denominator l1 l2) 25920000 25920000).
   destruct D1 as [? ?], D2 as [? ?]. unfold dot_product.
-  pose proof (mul_bound (px (line_delta l1)) (px (line_delta l2)) 2560 2560).
-  pose proof (mul_bound (py (line_delta l1)) (py (line_delta l2)) 2560 2560).
+  pose proof (mul_bound (px (line_delta l1)) (px (line_delta l2)) 3600 3600).
+  pose proof (mul_bound (py (line_delta l1)) (py (line_delta l2)) 3600 3600).
   cbn [andb]. sites; rng.
 Qed.
 Lemma div_bound n d N : 0 < d -> - N <= n <= N -> - N <= n / d <= N.
@@ -687,14 +693,14 @@ Proof.
   - apply Z.div_le_lower_bound; [assumption | nia].
   - apply Z.div_le_upper_bound; [assumption | nia].
 Qed.
-Lemma round_div_total den num : den <> 0 -> - 13107200 <= den <= 13107200 ->
-  - 70000000000 <= num <= 70000000000 -> round_div_ok den num = true.
+Lemma round_div_total den num : den <> 0 -> - 25920000 <= den <= 25920000 ->
+  - 100000000000 <= num <= 100000000000 -> round_div_ok den num = true.
 Proof.
   intros Hz Hd Hn. unfold round_div_ok.
   destruct (den <? 0) eqn:E; zb.
-  - pose proof (div_bound (- num + Z.quot (- den) 2) (- den) 70100000000 ltac:(lia) ltac:(lia)).
+  - pose proof (div_bound (- num + Z.quot (- den) 2) (- den) 100100000000 ltac:(lia) ltac:(lia)).
     sites; rng.
-  - pose proof (div_bound (num + Z.quot den 2) den 70100000000 ltac:(lia) ltac:(lia)).
+  - pose proof (div_bound (num + Z.quot den 2) den 100100000000 ltac:(lia) ltac:(lia)).
     sites; rng.
 Qed.
 Lemma ip_intersection_total l1 l2 : edge_line l1 -> edge_line l2 -> ip_intersection_ok l1 l2 = true.
@@ -703,10 +709,10 @@ Proof.
   pose proof (ip_denominator_bound l1 l2 B1 B2). pose proof (le_distance_bound l1 B1). pose proof (le_distance_bound l2 B2).
   pose proof (le_normal_bound l1 B1) as [? ?]. pose proof (le_normal_bound l2 B2) as [? ?].
   unfold ip_intersection_ok. cbv zeta. destruct (ip_denominator l1 l2 =? 0) eqn:E; [reflexivity|]. zb.
-  pose proof (mul_bound (le_distance l1) (py (le_normal l2)) 6553600 2560).
-  pose proof (mul_bound (le_distance l2) (py (le_normal l1)) 6553600 2560).
-  pose proof (mul_bound (px (le_normal l1)) (le_distance l2) 2560 6553600).
-  pose proof (mul_bound (px (le_normal l2)) (le_distance l1) 2560 6553600).
+  pose proof (mul_bound (le_distance l1) (py (le_normal l2)) 12960000 3600).
+  pose proof (mul_bound (le_distance l2) (py (le_normal l1)) 12960000 3600).
+  pose proof (mul_bound (px (le_normal l1)) (le_distance l2) 3600 12960000).
+  pose proof (mul_bound (px (le_normal l2)) (le_distance l1) 3600 12960000).
   rewrite !round_div_total by (unfold ip_x_numerator, ip_y_numerator; (assumption || lia)).
   unfold det64_ok. rewrite !andb_true_r. sites; rng.
 Qed.
@@ -723,7 +729,7 @@ Proof.
   sites; rng.
 Qed.
 
-(* ---- the miter point: |intersection| <= 13108481 for display-scale edge lines that are not nearly colinear ---- *)
+(* ---- the miter point: |intersection| <= 25921801 for display-scale edge lines that are not nearly colinear ---- *)
 Lemma lt_of_sq_lt a b : 0 <= a -> 0 <= b -> a * a < b * b -> a < b.
 Proof.
   intros Ha Hb H. apply Z.nle_gt. intro Hc.
@@ -796,11 +802,11 @@ Lemma ip_denominator_delta l1 l2 :
   ip_denominator l1 l2 = px (line_delta l1) * py (line_delta l2) - py (line_delta l1) * px (line_delta l2).
 Proof. unfold ip_denominator, le_normal, determinant, rotate_90. cbn [px py]. ring. Qed.
 Lemma ip_intersection_bound l1 l2 p : edge_line l1 -> edge_line l2 -> nearly_colinear l1 l2 = false ->
-  ip_intersection l1 l2 = Some p -> pbound 13108481 p.
+  ip_intersection l1 l2 = Some p -> pbound 25921801 p.
 Proof.
   intros E1 E2 Hn Hp. pose proof (edge_lbound l1 E1) as B1. pose proof (edge_lbound l2 E2) as B2.
-  destruct (line_delta_total 1280 l1 ltac:(lia) B1) as [_ [Dx1 Dy1]].
-  destruct (line_delta_total 1280 l2 ltac:(lia) B2) as [_ [Dx2 Dy2]].
+  destruct (line_delta_total 1800 l1 ltac:(lia) B1) as [_ [Dx1 Dy1]].
+  destruct (line_delta_total 1800 l2 ltac:(lia) B2) as [_ [Dx2 Dy2]].
   unfold ip_intersection in Hp. destruct (ip_denominator l1 l2 =? 0) eqn:Ez; [discriminate|]. zb. injection Hp as <-.
   unfold nearly_colinear in Hn. zb.
   destruct (ip_numerator_identity l1 l2) as [Ix Iy]. pose proof (ip_denominator_delta l1 l2) as Id.
@@ -810,36 +816,36 @@ Proof.
   set (N1 := Z.max (Z.abs a) (Z.abs b)). set (N2 := Z.max (Z.abs c) (Z.abs d)).
   assert (HN : N1 * N2 <= den * den).
   { rewrite Id. apply not_colinear_den; try reflexivity. unfold dot_product in Hn. fold a b c d in Hn. rewrite Id in Hn. lia. }
-  assert (P1 : 0 <= N1 <= 2560) by (subst N1; lia). assert (P2 : 0 <= N2 <= 2560) by (subst N2; lia).
-  assert (HB : N1 * N2 <= 2560 * 2560) by (apply Z.mul_le_mono_nonneg; lia).
-  assert (HG : N1 * N2 <= 2560 * Z.abs den) by (apply geo_mean; try lia; apply Z.mul_nonneg_nonneg; lia).
+  assert (P1 : 0 <= N1 <= 3600) by (subst N1; lia). assert (P2 : 0 <= N2 <= 3600) by (subst N2; lia).
+  assert (HB : N1 * N2 <= 3600 * 3600) by (apply Z.mul_le_mono_nonneg; lia).
+  assert (HG : N1 * N2 <= 3600 * Z.abs den) by (apply geo_mean; try lia; apply Z.mul_nonneg_nonneg; lia).
   (* the second term of the numerators *)
   set (w := dot_product (le_normal l2) (psub (l_start l2) (l_start l1))) in *.
   assert (A1 : Z.abs a <= N1) by (subst N1; apply Z.le_max_l). assert (A2 : Z.abs b <= N1) by (subst N1; apply Z.le_max_r).
   assert (A3 : Z.abs c <= N2) by (subst N2; apply Z.le_max_l). assert (A4 : Z.abs d <= N2) by (subst N2; apply Z.le_max_r).
-  assert (HW : Z.abs w <= 5120 * N2).
+  assert (HW : Z.abs w <= 7200 * N2).
   { subst w. unfold dot_product, le_normal, rotate_90, psub. fold c d. cbn [px py].
     destruct B1 as [[? ?] _], B2 as [[? ?] _].
-    pose proof (abs_mul_le (- d) (px (l_start l2) - px (l_start l1)) N2 2560 ltac:(lia) ltac:(lia)) as W1.
-    pose proof (abs_mul_le c (py (l_start l2) - py (l_start l1)) N2 2560 ltac:(lia) ltac:(lia)) as W2.
+    pose proof (abs_mul_le (- d) (px (l_start l2) - px (l_start l1)) N2 3600 ltac:(lia) ltac:(lia)) as W1.
+    pose proof (abs_mul_le c (py (l_start l2) - py (l_start l1)) N2 3600 ltac:(lia) ltac:(lia)) as W2.
     clear - W1 W2. lia. }
-  pose proof (abs_mul_le a w N1 (5120 * N2) A1 HW) as HA.
-  pose proof (abs_mul_le b w N1 (5120 * N2) A2 HW) as HBw.
+  pose proof (abs_mul_le a w N1 (7200 * N2) A1 HW) as HA.
+  pose proof (abs_mul_le b w N1 (7200 * N2) A2 HW) as HBw.
   destruct B1 as [[Sx Sy] _].
-  pose proof (abs_mul_le den (px (l_start l1)) (Z.abs den) 1280 ltac:(lia) ltac:(clear - Sx; lia)) as HX.
-  pose proof (abs_mul_le den (py (l_start l1)) (Z.abs den) 1280 ltac:(lia) ltac:(clear - Sy; lia)) as HY.
+  pose proof (abs_mul_le den (px (l_start l1)) (Z.abs den) 1800 ltac:(lia) ltac:(clear - Sx; lia)) as HX.
+  pose proof (abs_mul_le den (py (l_start l1)) (Z.abs den) 1800 ltac:(lia) ltac:(clear - Sy; lia)) as HY.
   unfold pbound. cbn [px py].
-  assert (NX : Z.abs (ip_x_numerator l1 l2) <= Z.abs den * 13108480).
+  assert (NX : Z.abs (ip_x_numerator l1 l2) <= Z.abs den * 25921800).
   { rewrite Ix. clear - HX HA HG P1 P2. set (u := den * px (l_start l1)) in *. set (v := a * w) in *. set (k := N1 * N2) in *.
-    replace (N1 * (5120 * N2)) with (5120 * k) in HA by (subst k; ring). lia. }
-  assert (NY : Z.abs (ip_y_numerator l1 l2) <= Z.abs den * 13108480).
+    replace (N1 * (7200 * N2)) with (7200 * k) in HA by (subst k; ring). lia. }
+  assert (NY : Z.abs (ip_y_numerator l1 l2) <= Z.abs den * 25921800).
   { rewrite Iy. clear - HY HBw HG P1 P2. set (u := den * py (l_start l1)) in *. set (v := b * w) in *. set (k := N1 * N2) in *.
-    replace (N1 * (5120 * N2)) with (5120 * k) in HBw by (subst k; ring). lia. }
-  pose proof (round_div_bound den (ip_x_numerator l1 l2) 13108480 Ez ltac:(lia) NX) as RX.
-  pose proof (round_div_bound den (ip_y_numerator l1 l2) 13108480 Ez ltac:(lia) NY) as RY.
+    replace (N1 * (7200 * N2)) with (7200 * k) in HBw by (subst k; ring). lia. }
+  pose proof (round_div_bound den (ip_x_numerator l1 l2) 25921800 Ez ltac:(lia) NX) as RX.
+  pose proof (round_div_bound den (ip_y_numerator l1 l2) 25921800 Ez ltac:(lia) NY) as RY.
   clear - RX RY. lia.
 Qed.
-Lemma join_point_bound second first p : edge_line second -> edge_line first -> join_point second first = Some p -> pbound 13108481 p.
+Lemma join_point_bound second first p : edge_line second -> edge_line first -> join_point second first = Some p -> pbound 25921801 p.
 Proof.
   intros E2 E1. unfold join_point. destruct (ip_intersection second first) as [q|] eqn:Eq; [ | discriminate ].
   intros [= <-]. destruct (nearly_colinear second first) eqn:En.
@@ -851,10 +857,17 @@ Lemma join_edges_total fl fr sl sr mid width : edge_line fl -> edge_line fr -> e
 Proof.
   intros Hfl Hfr Hsl Hsr Hm Hw. unfold join_edges_ok.
   rewrite !from_lines_total, !ip_intersection_total, !nearly_colinear_total, !from_line_total by assumption.
-  rewrite !le_point_distance_total by (assumption || apply Hsl || apply Hsr). cbn [andb].
-  destruct (join_point sl fl) as [li|] eqn:El; [ | reflexivity ]. destruct (join_point sr fr) as [ri|] eqn:Er; [ | reflexivity ].
-  pose proof (join_point_bound _ _ _ Hsl Hfl El) as [? ?]. pose proof (join_point_bound _ _ _ Hsr Hfr Er) as [? ?].
-  rewrite !miter_total; try reflexivity; try assumption; try (unfold pbound; lia); revert Hw; unf_ds; lia.
+  rewrite !le_point_distance_total by (assumption || apply Hsl || apply Hsr). cbn [andb]. cbv zeta.
+  destruct (ip_intersection sl fl) eqn:E1; [ | reflexivity ]. destruct (ip_intersection sr fr) eqn:E2; [ | reflexivity ].
+  rewrite Tauto.if_same. cbn [andb].
+  destruct (if ip_denominator sl fl <? 0 then _ else _); [reflexivity|].
+  destruct (ip_denominator sl fl <? 0).
+  - destruct (join_point sl fl) as [q|] eqn:El; [ | reflexivity ].
+    pose proof (join_point_bound _ _ _ Hsl Hfl El) as [? ?].
+    apply miter_total; try assumption; try (unfold pbound; lia); revert Hw; unf_ds; lia.
+  - destruct (join_point sr fr) as [q|] eqn:Er; [ | reflexivity ].
+    pose proof (join_point_bound _ _ _ Hsr Hfr Er) as [? ?].
+    apply miter_total; try assumption; try (unfold pbound; lia); revert Hw; unf_ds; lia.
 Qed.
 
 (* =========================================================================================== *)
@@ -1114,6 +1127,41 @@ Proof.
 Qed.
 Lemma cropped_next_total s : 0 <= cs_x s <= 4294967294 -> 0 <= cs_y s -> cs_h s <= 4294967295 -> cropped_next_ok s = true.
 Proof. intros. unfold cropped_next_ok. sites; zb; rng. Qed.
+
+(* =========================================================================================== *)
+(* documented panics and constant indices: exact preconditions                                   *)
+(* =========================================================================================== *)
+Lemma point_index_iff idx : point_index_ok idx = true <-> 0 <= idx < 2.
+Proof. unfold point_index_ok, index_ok. rewrite andb_true_iff, Z.leb_le, Z.ltb_lt. tauto. Qed.
+Lemma from_array2_total : from_array2_ok = true.
+Proof. reflexivity. Qed.
+Lemma tri_from_slice_iff len : tri_from_slice_ok len = true <-> len = 3.
+Proof. unfold tri_from_slice_ok. apply Z.eqb_eq. Qed.
+Lemma sorted_clockwise_total p1 p2 p3 : ds_point p1 -> ds_point p2 -> ds_point p3 -> sorted_clockwise_ok p1 p2 p3 = true.
+Proof. intros. unfold sorted_clockwise_ok. rewrite area_doubled_total by assumption. reflexivity. Qed.
+(* the inner corner of the join is bounded by hypothesis (OPEN: derive it; the proved join point bound is 25921801) *)
+Lemma is_collapsed_step_total um i opposite inner : 4294967295 <= um -> 0 <= i < 3 -> edge_line opposite ->
+  pbound 131072 inner -> is_collapsed_step_ok um i opposite inner = true.
+Proof.
+  intros Hu Hi He [? ?]. pose proof (edge_lbound _ He) as Hl. unfold is_collapsed_step_ok.
+  rewrite (from_line_total _ He). unfold le_point_distance_ok.
+  assert (D : dot_product_ok inner (le_normal opposite) = true).
+  { apply (dot_product_total 131072 3600); try lia; [unfold pbound; lia | apply le_normal_bound; assumption]. }
+  rewrite D.
+  pose proof (le_distance_bound _ Hl). pose proof (le_normal_bound _ Hl) as [? ?].
+  unfold dot_product.
+  pose proof (mul_bound (px inner) (px (le_normal opposite)) 131072 3600).
+  pose proof (mul_bound (py inner) (py (le_normal opposite)) 131072 3600).
+  unfold index_ok. assert (Hc : i = 0 \/ i = 1 \/ i = 2) by lia.
+  destruct Hc as [Hc|[Hc|Hc]]; subst i; cbn [andb]; sites; rng.
+Qed.
+Lemma image_new_const_iff um w h bpp len : 4294967295 <= um -> ds_ext w -> ds_ext h -> ds_bpp bpp ->
+  (image_new_const_ok um w h bpp len = true <-> len = bytes_per_row w bpp * h).
+Proof.
+  intros. unfold image_new_const_ok. rewrite image_new_total by assumption. cbn [andb]. apply Z.eqb_eq.
+Qed.
+Lemma with_angle_total is_180 c s : - 1025 <= c <= 1025 -> - 1025 <= s <= 1025 -> with_angle_ok is_180 c s = true.
+Proof. intros. unfold with_angle_ok, rotate_90_ok, normal_vector_scale. cbn [py]. destruct is_180; rng. Qed.
 
 (* =========================================================================================== *)
 (* The tie: every function of the regenerated site table is modelled against its current skeleton, *)
